@@ -134,6 +134,10 @@ func (tb *ATable) RegisterPropertyCallback(
 		case CB_ON_ITSELF, CB_ON_CELL:
 			set = &base.callbacks
 		}
+	case Table:
+		// A rendering wrapper around this table, naming itself as the owner
+		// because this method was promoted to it: that means the table itself.
+		return tb.RegisterPropertyCallback(tb, when, target, theNewCallback)
 	default:
 		return fmt.Errorf("do not know how to register callbacks for type %T", owner)
 	}
